@@ -290,6 +290,47 @@ def run(chk, tier):
             chk.expect(made == [v], "token-conversion", name, v, [v], made, loc=f"{fnh['loc']['f']}:{ln}")
             n_ok += 1
         chk.expect(n_ok == 6, "token-conversion", name, "structural-variants", 6, n_ok)
+    # ---- the collector's public portions: state tests are equalities on the documented states, the parser is obtained in one way, and
+    # the portion readers hand the right stop arguments to collect_to_object
+    chk.rule("collector-portions", "DicomCollector: read_file_meta reads the preamble iff state == Start and the meta group iff state == Preamble; every portion reader "
+             "obtains the parser as `if !has_parser() { set_parser_with_ts(hint) } else { parser() }`; read_dataset_to_end / _up_to call "
+             "collect_to_object(state, parser, false, None | Some(stop_tag), None, to, dict); nested items recurse with (true, None, None)")
+    DC = "dicom_object::collector::DicomCollector::<"
+    def coll(name):
+        hs = fx.find_hir("dicom_object", lambda p: p.startswith(DC) and p.endswith("::" + name))
+        if len(hs) != 1:
+            raise facts.MissingAnchor(f"DicomCollector::{name}: {len(hs)} candidates")
+        return hs[0]
+    hm = coll("read_file_meta")
+    st_ifs = [(H.show(x[2], 6), sorted({c.split("::")[-1] for c, _ in H.calls(x[3]) if c and c.startswith("dicom_object")})) for x in H.walk(hm["body"]) if H.kind(x) == "if" and "CollectorState" in H.show(x[2], 6)]
+    want = [("(self.state Eq dicom_object::collector::CollectorState::Start)", ["read_preamble"]), ("(self.state Eq dicom_object::collector::CollectorState::Preamble)", ["from_reader", "raw_reader_mut"])]
+    chk.expect(st_ifs == want, "collector-portions", "read_file_meta", "state-tests", want, st_ifs, loc=C.fn_loc(hm))
+    parser_inits = {}
+    for name, stop in (("read_dataset_to_end", "core::option::Option::None"), ("read_dataset_up_to", "core::option::Option::Some(stop_tag)")):
+        hh = coll(name)
+        lets = [x for x in H.walk(hh["body"]) if H.kind(x) == "slet" and H.pat_bindings(x[2]) == ["parser"]]
+        parser_inits[name] = H.show(lets[0][3], 12) if len(lets) == 1 else None
+        cs = [x for c, x in H.calls(hh["body"]) if c and c.endswith("::collect_to_object")]
+        args = [H.show(a, 4) for a in H.call_args(cs[0])] if len(cs) == 1 else None
+        wanted = ["&self.state", "parser", "false", stop, "core::option::Option::None", "to", "&self.dictionary"]
+        chk.expect(args == wanted, "collector-portions", name, "collect_to_object-arguments", wanted, args, loc=C.fn_loc(hh))
+    for name in ("read_next_fragment", "read_basic_offset_table"):
+        hh = coll(name)
+        lets = [x for x in H.walk(hh["body"]) if H.kind(x) == "slet" and H.pat_bindings(x[2]) == ["parser"]]
+        if lets:
+            parser_inits[name] = H.show(lets[-1][3], 12)
+    ref = parser_inits.get("read_dataset_to_end")
+    shape_ok = ref is not None and ref.startswith("if Not(self.source.has_parser())") and "set_parser_with_ts(" in ref and "self.source.parser()" in ref and "populate_ts_hint()" in ref
+    chk.expect(shape_ok and all(v == ref for v in parser_inits.values()) and len(parser_inits) >= 3, "collector-portions", "parser-initialisation", "same-in-every-portion-reader",
+               "if !has_parser() { hint -> set_parser_with_ts } else { parser() }, identical in all portion readers", {k: (v or "")[:80] for k, v in parser_inits.items()})
+    hcs = coll("collect_sequence")
+    rec = [[H.show(a, 4) for a in H.call_args(x)][2:5] for c, x in H.calls(hcs["body"]) if c and c.endswith("::collect_to_object")]
+    chk.expect(rec == [["true", "core::option::Option::None", "core::option::Option::None"]], "collector-portions", "collect_sequence", "items-read-whole", [["true", "None", "None"]], rec, loc=C.fn_loc(hcs))
+    hf = coll("read_next_fragment")
+    st = [H.show(x[2], 7) for x in H.walk(hf["body"]) if H.kind(x) == "if" and "CollectorState" in H.show(x[2], 7)]
+    want_st = ["((self.state Eq dicom_object::collector::CollectorState::Start) Or (self.state Eq dicom_object::collector::CollectorState::Preamble))",
+               "(self.state Ne dicom_object::collector::CollectorState::InPixelData)"]
+    chk.expect(st == want_st, "collector-portions", "read_next_fragment", "state-tests", want_st, st, loc=C.fn_loc(hf))
     from . import shared
     shared.collector_preamble(chk, fx, "collector-preamble")
     chk.undecided.append("equality of the values and of the token sequence on concrete streams; collector portions split at arbitrary tags (covered structurally by the stop comparators)")
